@@ -20,6 +20,7 @@ type hookEvent struct {
 	Ev, Kind, Phase uint8
 	Num             int32
 	Obj, Mine, Cell uintptr
+	K, N            int32 // evLazyEntry
 }
 
 const (
@@ -27,6 +28,7 @@ const (
 	evLazyDecoded   = 2
 	evLazyPublished = 3
 	evInit          = 4
+	evLazyEntry     = 5
 
 	phEnter       = 1
 	phLocked      = 2
@@ -165,6 +167,7 @@ type getterCall struct {
 	num       int32
 	call, ret uint64  // stamps around the generated getter
 	res       uintptr // returned submessage (0 = nil)
+	content   string  // what the reader saw in the returned submessage right after the getter returned
 }
 
 // walk follows the lazy chain with the generated getters, stamping every call.
@@ -175,7 +178,11 @@ func walk(g int, gid uint64, m proto.Message, calls *[]getterCall) {
 			c := hookTick()
 			next := n.GetNested()
 			r := hookTick()
-			*calls = append(*calls, getterCall{g, gid, uintptr(unsafe.Pointer(n)), 99, c, r, uintptr(unsafe.Pointer(next))})
+			content := ""
+			if next != nil {
+				content = fmt.Sprintf("%d/%s/%s/%d/%d", next.GetInt32(), short([]byte(next.GetString())), short(next.GetBytes()), next.GetSint64(), next.GetUint32())
+			}
+			*calls = append(*calls, getterCall{g, gid, uintptr(unsafe.Pointer(n)), 99, c, r, uintptr(unsafe.Pointer(next)), content})
 			n = next
 		}
 	case *edopaque.TestAllTypes:
@@ -183,11 +190,17 @@ func walk(g int, gid uint64, m proto.Message, calls *[]getterCall) {
 			c := hookTick()
 			nm := t.GetOptionalLazyNestedMessage()
 			r := hookTick()
-			*calls = append(*calls, getterCall{g, gid, uintptr(unsafe.Pointer(t)), 24, c, r, uintptr(unsafe.Pointer(nm))})
+			content := ""
+			var co *edopaque.TestAllTypes
+			if nm != nil {
+				co = nm.GetCorecursive()
+				content = fmt.Sprintf("%d/%s/%d/%s/%d", nm.GetA(), sumInts(co.GetRepeatedInt32()), len(co.GetRepeatedString()), short(co.GetOptionalBytes()), co.GetOptionalInt32())
+			}
+			*calls = append(*calls, getterCall{g, gid, uintptr(unsafe.Pointer(t)), 24, c, r, uintptr(unsafe.Pointer(nm)), content})
 			if nm == nil {
 				break
 			}
-			t = nm.GetCorecursive()
+			t = co
 		}
 	}
 }
@@ -233,10 +246,12 @@ func lazyTraces(calls []getterCall, evs []hookEvent, res *childResult) [][]strin
 		}
 		var steps []step
 		type th struct {
-			c                  getterCall
-			entered            bool
-			decoded, published uint64
-			mine, cellAfter    uintptr
+			c               getterCall
+			entered         bool
+			decoded         []uint64    // one per LazyDecoded record (the code's shape has exactly one per call)
+			entries         []hookEvent // LazyEntry records (one per merged index entry), in recorded order
+			published       uint64
+			mine, cellAfter uintptr
 		}
 		var ths []th
 		for _, ci := range byCell[k] {
@@ -248,13 +263,79 @@ func lazyTraces(calls []getterCall, evs []hookEvent, res *childResult) [][]strin
 					case evLazyEnter:
 						t.entered = true
 					case evLazyDecoded:
-						t.decoded, t.mine = e.Seq, e.Mine
+						t.decoded, t.mine = append(t.decoded, e.Seq), e.Mine
+					case evLazyEntry:
+						t.entries, t.mine = append(t.entries, e), e.Mine
 					case evLazyPublished:
 						t.published, t.cellAfter = e.Seq, e.Cell
 					}
 				}
 			}
 			ths = append(ths, t)
+		}
+		// lazyUnmarshal calls on this cell that did not come from one of the stamped getters: the field of a
+		// not yet published object is force-decoded while a later wire occurrence is merged into that object
+		// (unmarshalPointerLazy: `f.isLazy && !lazyDecode && Present → lazyUnmarshal`).  Each is a reader of its
+		// own: presence and nil check at its LazyEnter record, result = the cell after its CAS.
+		for gid, es := range evByG {
+			var cur *th
+			flush := func() {
+				if cur != nil && cur.published != 0 {
+					ths = append(ths, *cur)
+					res.Hist["trace:internal-lazyUnmarshal"]++
+				}
+				cur = nil
+			}
+			for _, e := range es {
+				if e.Obj != k.msg || e.Num != k.num {
+					continue
+				}
+				inCall := false
+				for _, ci := range byCell[k] {
+					if c := calls[ci]; c.gid == gid && e.Seq > c.call && e.Seq < c.ret {
+						inCall = true
+						break
+					}
+				}
+				if inCall {
+					continue
+				}
+				switch e.Ev {
+				case evLazyEnter:
+					flush()
+					cur = &th{c: getterCall{gid: gid, msg: k.msg, num: k.num, call: e.Seq}, entered: true}
+				case evLazyDecoded:
+					if cur != nil {
+						cur.decoded, cur.mine = append(cur.decoded, e.Seq), e.Mine
+					}
+				case evLazyEntry:
+					if cur != nil {
+						cur.entries, cur.mine = append(cur.entries, e), e.Mine
+					}
+				case evLazyPublished:
+					if cur != nil {
+						cur.published, cur.cellAfter = e.Seq, e.Cell
+						cur.c.ret, cur.c.res = e.Seq+1, e.Cell
+					}
+				}
+			}
+			flush()
+		}
+		// a cell nobody lazily decoded during the recording: the submessage was decoded eagerly (a later wire
+		// occurrence merged into a non-empty object is not decoded lazily) before the message was shared.
+		// Not an instance of the lazy protocol; the readers must still agree.
+		anyEntered := false
+		for _, t := range ths {
+			anyEntered = anyEntered || t.entered
+		}
+		if !anyEntered && len(ths) > 0 && ths[0].c.res != 0 {
+			for _, t := range ths {
+				if t.c.res != ths[0].c.res && len(res.Fails) < 5 {
+					res.Fails = append(res.Fails, fmt.Sprintf("readers of an eagerly decoded submessage (field %d) obtained different instances", k.num))
+				}
+			}
+			res.Hist["trace:eager-cell-skipped"]++
+			continue
 		}
 		// the winner's CAS: after every nil-seeing check (call stamps), inside its own interval
 		var latestNilSeer float64
@@ -268,6 +349,7 @@ func lazyTraces(calls []getterCall, evs []hookEvent, res *childResult) [][]strin
 			}
 		}
 		objID := map[uintptr]int{}
+		nEntries := 0 // number of index entries of this field, as recorded by LazyEntry
 		for i, t := range ths {
 			id := fmt.Sprint(i)
 			if t.c.res == 0 && !t.entered {
@@ -277,11 +359,41 @@ func lazyTraces(calls []getterCall, evs []hookEvent, res *childResult) [][]strin
 			steps = append(steps, step{at: float64(t.c.call) + 0.1, tok: []string{"P", id, "1"}})
 			if t.entered {
 				steps = append(steps, step{at: float64(t.c.call) + 0.2, tok: []string{"N", id, "1"}})
-				steps = append(steps, step{at: float64(t.decoded), tok: []string{"D", id}, dec: t.mine})
+				lastDecoded := float64(t.c.call) + 0.3
+				if hookHasEntry {
+					// the tree records every merged index entry (verifhook.LazyEntry): allocation, one merge step per
+					// record, and "left the loop" at the LazyDecoded record.  The model (run with the recorded number
+					// of entries n) accepts the LazyDecoded record and the CAS only after entries 0..n-1.
+					steps = append(steps, step{at: float64(t.c.call) + 0.3, tok: []string{"A", id}, dec: t.mine})
+					for j, e := range t.entries {
+						if int(e.K) != j || e.Mine != t.mine || (nEntries != 0 && int(e.N) != nEntries) {
+							if len(res.Fails) < 5 {
+								res.Fails = append(res.Fails, fmt.Sprintf("LazyEntry records of one lazyUnmarshal call are inconsistent: record %d says entry %d of %d (other calls on this field: %d entries)", j, e.K, e.N, nEntries))
+							}
+						}
+						nEntries = int(e.N)
+						steps = append(steps, step{at: float64(e.Seq), tok: []string{"M", id}})
+					}
+					for _, d := range t.decoded {
+						steps = append(steps, step{at: float64(d), tok: []string{"E", id}})
+						lastDecoded = float64(d)
+					}
+					res.Hist[fmt.Sprintf("trace:entries-per-call:%d", len(t.entries))]++
+				} else {
+					// every LazyDecoded record stands for "all index entries merged, about to publish": a call that
+					// records it more than once published before its decoding was finished — the model rejects the second one
+					for _, d := range t.decoded {
+						steps = append(steps, step{at: float64(d), tok: []string{"D", id}, dec: t.mine})
+						lastDecoded = float64(d)
+					}
+				}
+				if len(t.decoded) != 1 {
+					res.Hist[fmt.Sprintf("trace:decoded-records-per-call:%d", len(t.decoded))]++
+				}
 				won := t.cellAfter == t.mine
 				at := float64(t.published) - 0.3
 				if won && nWinners == 1 {
-					at = float64(t.decoded) + 0.1
+					at = lastDecoded + 0.1
 					if latestNilSeer+0.3 > at {
 						at = latestNilSeer + 0.3
 					}
@@ -302,15 +414,23 @@ func lazyTraces(calls []getterCall, evs []hookEvent, res *childResult) [][]strin
 		sort.SliceStable(steps, func(i, j int) bool { return steps[i].at < steps[j].at })
 		// number the objects in the order of their decode steps, as the model's allocator does
 		for _, s := range steps {
-			if s.tok[0] == "D" {
-				objID[s.dec] = len(objID)
+			if s.tok[0] == "D" || s.tok[0] == "A" {
+				if _, seen := objID[s.dec]; !seen {
+					objID[s.dec] = len(objID)
+				}
 			}
 		}
 		line := []string{"lazy"}
+		if hookHasEntry {
+			if nEntries == 0 {
+				nEntries = 1 // nobody recorded an entry: a decoder (if any) is rejected at its LazyDecoded record
+			}
+			line = []string{"lazyn", fmt.Sprint(nEntries)}
+		}
 		for _, s := range steps {
 			switch s.tok[0] {
-			case "D":
-				line = append(line, "D", s.tok[1], fmt.Sprint(objID[s.dec]))
+			case "D", "A":
+				line = append(line, s.tok[0], s.tok[1], fmt.Sprint(objID[s.dec]))
 			case "L":
 				var p uintptr
 				fmt.Sscanf(s.tok[2], "@%d", &p)
@@ -340,13 +460,18 @@ func childC18Trace(res *childResult, seed int64, rounds int) {
 	r := rand.New(rand.NewSource(seed))
 	for round := 0; round < rounds && len(res.Traces) < 4000; round++ {
 		k := &kinds[r.Intn(2)] // Node, TestAllTypes
-		m := k.build(r)
-		wire, _ := proto.MarshalOptions{Deterministic: true}.Marshal(m)
+		wire, shape := genWire(r, k)
+		res.Hist["trace:wire:"+shape]++
 		shared := k.zero()
 		if err := proto.Unmarshal(wire, shared); err != nil {
 			res.Fails = append(res.Fails, "decode: "+err.Error())
 			return
 		}
+		// the sequential walk on a separate copy: what every reader must see at each level
+		ref := k.zero()
+		proto.Unmarshal(wire, ref)
+		var seqCalls []getterCall
+		walk(0, 0, ref, &seqCalls)
 		n := []int{2, 3, 4, 8, 16, 32}[r.Intn(6)]
 		calls := make([][]getterCall, n)
 		var ready, wg sync.WaitGroup
@@ -375,8 +500,15 @@ func childC18Trace(res *childResult, seed int64, rounds int) {
 		wg.Wait()
 		evs := hookStop()
 		var all []getterCall
-		for _, c := range calls {
-			all = append(all, c...)
+		for g, cs := range calls {
+			all = append(all, cs...)
+			for i, c := range cs {
+				want := seqCalls[i%len(seqCalls)].content
+				if c.content != want && len(res.Fails) < 5 {
+					res.Fails = append(res.Fails, fmt.Sprintf("goroutine %d of %d: getter of field %d at depth %d returned a submessage with content %s, the sequential result is %s (kind %s, %s wire %x…, %d bytes)",
+						g, n, c.num, i%len(seqCalls)+1, c.content, want, k.name, shape, wire[:min(len(wire), 24)], len(wire)))
+				}
+			}
 		}
 		res.Traces = append(res.Traces, lazyTraces(all, evs, res)...)
 		res.Rounds++
